@@ -10,6 +10,7 @@ from jaxley.solver_gate import (
     save_exp,
     solve_gate_exponential,
     solve_inf_gate_exponential,
+    x_over_expm1,
 )
 
 # This is an implementation of Pospischil channels:
@@ -29,7 +30,7 @@ def efun(x):
     Returns:
         float: x/[exp(x)-1]
     """
-    return x / (save_exp(x) - 1.0)
+    return x_over_expm1(x)
 
 
 class Leak(Channel):
